@@ -125,4 +125,269 @@ example : RuleWF ⟨.onExit, 0, .show, "o0", "", false⟩ :=
 example : addStr (ruleString ⟨.notime, 0, .config, "show_pc", "x", false⟩)
     = some ⟨.notime, 0, .config, "show_pc", "", false⟩ := by decide
 
+
+/-! ## Part 2 — rule application
+
+  `step : Vm → Vm` (the machine) is arbitrary in every statement.  `injected sh acts t vm` is the
+  state `VM.Step` is called on in iteration `t` when the loop entered the iteration with `vm`;
+  `iteration` is one pass of the loop body; `compile` is SimDrive.Init + SimReport.Init +
+  SimConfig.Init.  Cells named by valid/recv mnemonics are excluded (`isFlag = false`): the code
+  hands out detached pointers for them, see docs/C15.md (O2). -/
+namespace Sim
+open BMV.Simbox.Sim
+
+/-- a suspended rule has no effect at all: compiling a rule list = compiling its active rules
+    (drive, show and get reports, configuration), hence the whole simulation is the same -/
+theorem suspended_no_effect (sh : Shape) (bondNames : List String) (b : Box) :
+    compile sh bondNames b = compile sh bondNames (b.filter fun r => !r.suspended) :=
+  compile_active sh bondNames b
+
+/-- ... in particular suspending rule `i` is the same as deleting it, as far as simulation goes -/
+theorem suspend_eq_delete (sh : Shape) (bondNames : List String) (b : Box) (i : Nat) (hi : i < b.length) :
+    compile sh bondNames (b.modify i (setSusp true)) = compile sh bondNames (b.eraseIdx i) := by
+  rw [compile_active, compile_active sh bondNames (b.eraseIdx i)]
+  congr 1
+  apply List.ext_getElem?
+  intro j
+  induction b generalizing i j with
+  | nil => simp at hi
+  | cons r rs ih =>
+    cases i with
+    | zero => simp [active, setSusp, List.filter_cons]
+    | succ i =>
+      simp only [List.modify_succ_cons, List.eraseIdx_cons_succ, active, List.filter_cons]
+      have hi' : i < rs.length := by simpa using hi
+      split
+      · cases j with
+        | zero => rfl
+        | succ j => simpa [active] using ih i hi' j
+      · simpa [active] using ih i hi' j
+
+/-- the compiled set actions are exactly the active `absolute|relative : set` rules, each with its
+    resolved element, its value reduced to the register type, its tick or period -/
+theorem sets_are_the_rules (sh : Shape) (b : Box) (acts : List SetAct) (h : compileSets sh b = .ok acts)
+    (a : SetAct) : a ∈ acts ↔ ∃ r ∈ b, isSetRule r ∧ setActOf sh r = some a :=
+  compileSets_mem sh b acts h a
+
+/-- tick arithmetic of set rules: an absolute rule fires at its tick only (`set_only_then`), a
+    periodic rule with period p ≥ 1 at the multiples of p and a period of 0 never (`periodic_every_p`) -/
+theorem set_only_then (a : SetAct) (t : Nat) (h : a.periodic = false) : a.fires t = true ↔ a.tick = t :=
+  fires_abs a t h
+
+theorem periodic_every_p (a : SetAct) (t : Nat) (h : a.periodic = true) :
+    a.fires t = true ↔ a.tick ≠ 0 ∧ t % a.tick = 0 :=
+  fires_periodic a t h
+
+/-- what is applied at tick `t` is exactly the set of compiled actions that fire at `t` -/
+theorem firing_exact (acts : List SetAct) (t : Nat) (a : SetAct) :
+    a ∈ firing acts t ↔ a ∈ acts ∧ a.fires t = true :=
+  mem_firing acts t a
+
+/-- exactness and frame in one statement: in the state handed to the machine step every
+    (non-flag) cell holds the value of the last firing action that names it, and is *unchanged*
+    if no firing action names it — nothing else is injected, by any rule, at any tick -/
+theorem set_exact_and_frame (sh : Shape) (acts : List SetAct) (t : Nat) (vm : Vm) (l : Loc) (hl : l.isFlag = false) :
+    read (injected sh acts t vm) l =
+      match (firing acts t).reverse.find? (fun a => a.loc = l) with
+      | some a => (read vm l).map (fun _ => a.val)
+      | none => read vm l :=
+  read_injected sh acts t vm l hl
+
+/-- `set_exact`: a firing action that is the only one naming its (existing) cell at that tick puts
+    exactly its value there -/
+theorem set_exact (sh : Shape) (acts : List SetAct) (t : Nat) (vm : Vm) (a : SetAct)
+    (ha : a ∈ firing acts t) (hl : a.loc.isFlag = false)
+    (huniq : ∀ b ∈ firing acts t, b.loc = a.loc → b.val = a.val)
+    (x : Nat) (hx : read vm a.loc = some x) :
+    read (injected sh acts t vm) a.loc = some a.val := by
+  rw [read_injected sh acts t vm a.loc hl]
+  cases hf : (firing acts t).reverse.find? (fun b => b.loc = a.loc) with
+  | none =>
+    have := List.find?_eq_none.mp hf a (by simpa using ha)
+    simp at this
+  | some b =>
+    have hb := List.mem_of_find?_eq_some hf
+    have hp := List.find?_some hf
+    simp only [decide_eq_true_eq] at hp
+    simp [hx, huniq b (by simpa using hb) hp]
+
+/-- `set_exact`, end to end from the rule list: an active `absolute:t:set:o:v` rule whose object
+    resolves to an existing non-flag element `l` and whose value reads as `n` makes the state the
+    machine step is called on at tick `t` hold `n mod 2^w` in `l` (w = bits of the register type),
+    provided no other set action firing at `t` writes a different value to `l`; for every loop
+    state `vm`, every machine -/
+theorem set_exact_rule (sh : Shape) (b : Box) (acts : List SetAct) (hc : compileSets sh b = .ok acts)
+    (r : Rule) (hr : r ∈ b) (hs : r.suspended = false) (ha : r.action = .set) (htc : r.timec = .abs)
+    (l : Loc) (n w : Nat) (hl : resolve sh r.object = some l) (hn : importNumber r.extra = some n)
+    (hw : wbits sh.rsize = some w) (hflag : l.isFlag = false) (vm : Vm) (x : Nat) (hx : read vm l = some x)
+    (huniq : ∀ a ∈ firing acts r.tick, a.loc = l → a.val = n % 2 ^ w) :
+    read (injected sh acts r.tick vm) l = some (n % 2 ^ w) := by
+  have hso : setActOf sh r = some ⟨false, r.tick, l, n % 2 ^ w⟩ := by
+    simp [setActOf, hl, hn, hw, htc]
+  have hmem : (⟨false, r.tick, l, n % 2 ^ w⟩ : SetAct) ∈ acts :=
+    (compileSets_mem sh b acts hc _).mpr ⟨r, hr, ⟨hs, ha, .inl htc⟩, hso⟩
+  have hfire : (⟨false, r.tick, l, n % 2 ^ w⟩ : SetAct) ∈ firing acts r.tick :=
+    (mem_firing _ _ _).mpr ⟨hmem, by simp [SetAct.fires]⟩
+  exact set_exact sh acts r.tick vm ⟨false, r.tick, l, n % 2 ^ w⟩ hfire hflag
+    (fun a ha' hloc => huniq a ha' hloc) x hx
+
+/-- `frame`: a cell no firing action names is not touched by the injection -/
+theorem set_frame (sh : Shape) (acts : List SetAct) (t : Nat) (vm : Vm) (l : Loc) (hl : l.isFlag = false)
+    (hnone : ∀ a ∈ acts, a.fires t = true → a.loc ≠ l) :
+    read (injected sh acts t vm) l = read vm l := by
+  rw [read_injected sh acts t vm l hl]
+  cases hf : (firing acts t).reverse.find? (fun b => b.loc = l) with
+  | none => rfl
+  | some b =>
+    have hb := List.mem_of_find?_eq_some hf
+    have hp := List.find?_some hf
+    simp only [decide_eq_true_eq] at hp
+    have := (mem_firing acts t b).mp (by simpa using hb)
+    exact absurd hp (hnone b this.1 this.2)
+
+/-- the valid flag of input `k` after injection: raised iff a firing action writes input `k`;
+    otherwise what the handshake left (cleared when the input had been received) -/
+theorem set_raises_valid (sh : Shape) (acts : List SetAct) (t : Nat) (vm : Vm) (k : Nat) :
+    read (injected sh acts t vm) (.inValid k) =
+      if (firing acts t).any (fun a => a.loc = .inReg k)
+      then (read (clearValid sh.nIn vm) (.inValid k)).map (fun _ => 1)
+      else read (clearValid sh.nIn vm) (.inValid k) :=
+  read_injected_valid sh acts t vm k
+
+/-- one loop iteration (not yet finished): appends one record for tick `t`; unless the loop is
+    shutting down the machine step is called on `injected …` and the outputs are acknowledged;
+    in the shutdown iteration nothing is injected or stepped; the values shown are the values of
+    the fired slots in the state after the iteration -/
+theorem iteration_spec (step : Vm → Vm) (c : Compiled) (stopOn : Option Nat) (report : Bool) (s : LoopSt)
+    (t : Nat) (h : s.done = false) :
+    ∃ r, (iteration step c stopOn report s t).trace = s.trace ++ [r] ∧ r.tick = t ∧
+      r.shutdown = isShutdown stopOn s.vm ∧
+      (r.shutdown = false → r.pre = injected c.sh c.acts t s.vm ∧ r.stepped = step r.pre ∧
+          r.post = ackOutputs c.sh.nOut r.stepped) ∧
+      (r.shutdown = true → r.pre = s.vm ∧ r.post = s.vm) ∧
+      (r.fatal = 0 → r.shown = (slotValues c.shows r.post (firedSlots c.shows t s.old r.post r.shutdown true)).1 ∧
+          (slotValues c.shows r.post (firedSlots c.shows t s.old r.post r.shutdown true)).2 = false) :=
+  iteration_record step c stopOn report s t h
+
+/-- `get_reports_value` (soundness): every value printed for slot `i` is the value the slot's
+    element has in the given state, with the slot's type, and slot `i` was asked for -/
+theorem shown_is_value (rp : Report) (vm : Vm) (idxs : List Nat) (i : Nat) (ty : String) (v : Nat)
+    (h : (i, ty, v) ∈ (slotValues rp vm idxs).1) :
+    i ∈ idxs ∧ ∃ s, rp.slots[i]? = some s ∧ s.ty = ty ∧ v = readD vm s.loc ∧ s.loc.isFlag = false :=
+  slotValues_sound rp vm idxs i ty v h
+
+/-- `get_reports_value` (completeness): unless a flag slot aborted the printing, every slot asked
+    for is printed -/
+theorem asked_is_shown (rp : Report) (vm : Vm) (idxs : List Nat) (hok : (slotValues rp vm idxs).2 = false)
+    (i : Nat) (hi : i ∈ idxs) (s : Slot) (hs : rp.slots[i]? = some s) :
+    (i, s.ty, readD vm s.loc) ∈ (slotValues rp vm idxs).1 :=
+  slotValues_complete rp vm idxs hok i hi s hs
+
+/-- a slot is printed at tick `t` iff one of its watches fires at `t` -/
+theorem fired_iff_watch (rp : Report) (t : Nat) (old new : Vm) (sd ev : Bool) (i : Nat) :
+    i ∈ firedSlots rp t old new sd ev ↔
+      i < rp.slots.length ∧ ∃ w ∈ rp.watches, w.slot = i ∧ w.fires t old new sd ev = true :=
+  mem_firedSlots rp t old new sd ev i
+
+/-- when the four kinds of watch fire: at the tick; every p ticks (p ≥ 1); on the rising edge of
+    the element's valid flag between two consecutive iterations (`onvalid_fires_iff_rising`);
+    in the shutdown iteration (`onexit_fires_iff_shutdown`) — events only where they are looked at -/
+theorem watch_at (i t' t : Nat) (old new : Vm) (sd ev : Bool) :
+    (Watch.mk i (.at t')).fires t old new sd ev = true ↔ t' = t := fires_at i t' t old new sd ev
+
+theorem watch_every (i p t : Nat) (old new : Vm) (sd ev : Bool) :
+    (Watch.mk i (.every p)).fires t old new sd ev = true ↔ p ≠ 0 ∧ t % p = 0 := fires_every i p t old new sd ev
+
+theorem onvalid_fires_iff_rising (i : Nat) (f : Loc) (t : Nat) (old new : Vm) (sd ev : Bool) :
+    (Watch.mk i (.onValid f)).fires t old new sd ev = true ↔ ev = true ∧ readD new f = 1 ∧ readD old f ≠ 1 :=
+  fires_onValid i f t old new sd ev
+
+theorem onexit_fires_iff_shutdown (i t : Nat) (old new : Vm) (sd ev : Bool) :
+    (Watch.mk i .onExit).fires t old new sd ev = true ↔ ev = true ∧ sd = true :=
+  fires_onExit i t old new sd ev
+
+/-- from rule to watch: an active `absolute:t` / `relative:p` show (get) rule whose object resolves
+    owns a slot for that element and a watch on it with the rule's tick / period -/
+theorem timed_rule_is_watched (sh : Shape) (bn : List String) (act : Action) (b : Box) (rp : Report)
+    (h : compileReport sh bn act b {} = .ok rp) (r : Rule) (hr : r ∈ b) (hs : r.suspended = false)
+    (ha : r.action = act) (htc : r.timec = .abs ∨ r.timec = .rel) (l : Loc) (hl : resolve sh r.object = some l) :
+    ∃ i s, rp.slots[i]? = some s ∧ s.loc = l ∧
+      ⟨i, if r.timec = .abs then .at r.tick else .every r.tick⟩ ∈ rp.watches :=
+  compileReport_timed sh bn act b {} rp h r hr hs ha htc l hl
+
+theorem onexit_rule_is_watched (sh : Shape) (bn : List String) (act : Action) (b : Box) (rp : Report)
+    (h : compileReport sh bn act b {} = .ok rp) (r : Rule) (hr : r ∈ b) (hs : r.suspended = false)
+    (ha : r.action = act) (htc : r.timec = .onExit) (l : Loc) (hl : resolve sh r.object = some l) :
+    ∃ i s, rp.slots[i]? = some s ∧ s.loc = l ∧ ⟨i, .onExit⟩ ∈ rp.watches :=
+  compileReport_onExit sh bn act b {} rp h r hr hs ha htc l hl
+
+theorem onvalid_rule_is_watched (sh : Shape) (bn : List String) (act : Action) (b : Box) (rp : Report)
+    (h : compileReport sh bn act b {} = .ok rp) (r : Rule) (hr : r ∈ b) (hs : r.suspended = false)
+    (ha : r.action = act) (htc : r.timec = .onValid) (l f : Loc) (hl : resolve sh r.object = some l)
+    (hf : validFlagOf sh r.object = some f) :
+    ∃ i s, rp.slots[i]? = some s ∧ s.loc = l ∧ ⟨i, .onValid f⟩ ∈ rp.watches :=
+  compileReport_onValid sh bn act b {} rp h r hr hs ha htc l f hl hf
+
+/-- `get_reports_value`, end to end for show rules: if the rule list contains an active
+    `absolute:t:show:o:…` rule whose object resolves to a (non-flag) element, then the iteration
+    for tick `t` of any run that is not aborted prints, for that element's slot, the value the
+    element has after that iteration — for every machine step, every loop state -/
+theorem get_reports_value (step : Vm → Vm) (c : Compiled) (bn : List String) (b : Box)
+    (hc : compileReport c.sh bn .show b {} = .ok c.shows)
+    (r : Rule) (hr : r ∈ b) (hs : r.suspended = false) (ha : r.action = .show) (htc : r.timec = .abs)
+    (l : Loc) (hl : resolve c.sh r.object = some l)
+    (stopOn : Option Nat) (report : Bool) (s : LoopSt) (hd : s.done = false) :
+    ∃ rec, (iteration step c stopOn report s r.tick).trace = s.trace ++ [rec] ∧
+      (rec.fatal = 0 → ∃ i sl, c.shows.slots[i]? = some sl ∧ sl.loc = l ∧
+        (i, sl.ty, readD rec.post l) ∈ rec.shown) := by
+  obtain ⟨rec, htr, _, _, _, _, hshown⟩ := iteration_record step c stopOn report s r.tick hd
+  refine ⟨rec, htr, fun hf => ?_⟩
+  obtain ⟨hsh, hok⟩ := hshown hf
+  obtain ⟨i, sl, hsl, hloc, hw⟩ := compileReport_timed c.sh bn .show b {} c.shows hc r hr hs ha (.inl htc) l hl
+  simp only [htc, if_true] at hw
+  have hi : i < c.shows.slots.length := by
+    rcases Nat.lt_or_ge i c.shows.slots.length with h | h
+    · exact h
+    · rw [List.getElem?_eq_none h] at hsl; cases hsl
+  have hfired : i ∈ firedSlots c.shows r.tick s.old rec.post rec.shutdown true :=
+    (mem_firedSlots _ _ _ _ _ _ _).mpr ⟨hi, _, hw, rfl, (fires_at _ _ _ _ _ _ _).mpr rfl⟩
+  have := slotValues_complete c.shows rec.post _ hok i hfired sl hsl
+  rw [hloc] at this
+  exact ⟨i, sl, hsl, hloc, by rw [hsh]; exact this⟩
+
+/-! ### what is *not* proved (kept visible)
+
+  The converse direction for reports — every watch of the compiled report comes from an active
+  rule of that kind, so nothing is shown that no rule asked for — is checked by the
+  correspondence (every show line and report row of every generated rule list is compared with
+  the model, whose `firedSlots` is exact by `fired_iff_watch`) but not proved as a theorem about
+  `compileReport`. -/
+def watches_come_from_rules_full : Prop :=
+  ∀ (sh : Shape) (bn : List String) (act : Action) (b : Box) (rp : Report) (w : Watch),
+    compileReport sh bn act b {} = .ok rp → w ∈ rp.watches →
+    ∃ r ∈ b, r.suspended = false ∧ r.action = act ∧
+      ((r.timec = .abs ∧ w.trigger = .at r.tick) ∨ (r.timec = .rel ∧ w.trigger = .every r.tick) ∨
+       (r.timec = .onValid ∧ ∃ f, validFlagOf sh r.object = some f ∧ w.trigger = .onValid f) ∨
+       (r.timec = .onExit ∧ w.trigger = .onExit))
+
+/-! ### non-vacuity (part 2): a concrete machine and rule list -/
+
+def exShape : Shape := ⟨8, 2, 2, [(0, 0, 4)]⟩
+def exTopo : Topo := ⟨[⟨1, 0, 0⟩, ⟨1, 1, 0⟩], [⟨0, 0, 0⟩, ⟨0, 1, 0⟩], [some 0, some 1]⟩
+def exRules : Box :=
+  [⟨.abs, 2, .set, "i0", "5", false⟩, ⟨.rel, 3, .set, "i1", "300", false⟩,
+   ⟨.abs, 2, .set, "i0", "9", true⟩, ⟨.abs, 3, .show, "o0", "hex", false⟩]
+
+/-- the example compiles to two actions (the suspended one is gone, 300 is reduced to 44) ... -/
+example : compileSets exShape exRules = .ok [⟨false, 2, .inReg 0, 5⟩, ⟨true, 3, .inReg 1, 44⟩] := by rfl
+/-- ... at tick 3 only the periodic one fires, at tick 2 only the absolute one ... -/
+example : firing [⟨false, 2, .inReg 0, 5⟩, ⟨true, 3, .inReg 1, 44⟩] 3 = [⟨true, 3, .inReg 1, 44⟩] := by decide
+example : firing [⟨false, 2, .inReg 0, 5⟩, ⟨true, 3, .inReg 1, 44⟩] 2 = [⟨false, 2, .inReg 0, 5⟩] := by decide
+/-- ... and the injected state at tick 2 has i0 = 5 with its valid flag raised, i1 untouched -/
+example :
+    let vm := injected exShape [⟨false, 2, .inReg 0, 5⟩, ⟨true, 3, .inReg 1, 44⟩] 2 (initVm exShape exTopo)
+    read vm (.inReg 0) = some 5 ∧ read vm (.inValid 0) = some 1 ∧ read vm (.inReg 1) = some 0 := by decide
+
+end Sim
+
 end BMV.Props.C15
